@@ -458,8 +458,121 @@ class Evaluator:
             outs += self.block(st.orelse, [si])
         return outs
 
+    def _global_tuple(self, qual: str) -> Optional[Term]:
+        """Term of a module-level constant table ``NAME = (a, b, ...)`` (a tuple display of at
+        most 4 elements, assigned once): iterating it is iterating the display."""
+        modname, _, name = qual.rpartition('.')
+        mod = self.repo.modules.get(modname)
+        if mod is None:
+            return None
+        sts = mod.assigns.get(name, [])
+        if len(sts) != 1 or not isinstance(sts[0], (ast.Assign, ast.AnnAssign)) or \
+                not isinstance(sts[0].value, ast.Tuple) or not 1 <= len(sts[0].value.elts) <= 4:
+            return None
+        node = ast.parse('def _verif_const():\n    pass').body[0]
+        fi = FunctionInfo('_verif_const', modname + '._verif_const', node, mod, None, 'function')
+        try:
+            return Evaluator(self.repo, fi).expr(sts[0].value, State({}))
+        except AnalysisError:
+            return None
+
+    def _probe_target(self, call: ast.Call, s: State):
+        """(function, binding) when ``call`` is a call of an inlinable helper, evaluated on a
+        scratch state (no events are recorded)."""
+        probe = s.fork()
+        prev_inline, self.inline = self.inline, None        # evaluate the call expression plainly
+        try:
+            f = self.expr(call.func, probe)
+            args = tuple(self.expr(a, probe) for a in call.args
+                         if not isinstance(a, ast.Starred))
+            kws = tuple((k.arg if k.arg is not None else '**', self.expr(k.value, probe))
+                        for k in call.keywords)
+        finally:
+            self.inline = prev_inline
+        self._probed_term = ('call', f, args, kws)
+        if any(isinstance(a, ast.Starred) for a in call.args):
+            return None
+        return self._inline_target(f, args, kws)
+
+    def _generator_loop(self, st: ast.For, s: State):
+        """``for x in helper(...)`` where helper is an inlinable generator: the helper runs up to
+        each of its yields, the loop body runs with the target bound to the yielded value, and
+        the helper resumes -- the paths of the loop written in place (helper paths that yield
+        nothing are the zero-iteration paths)."""
+        call = st.iter
+        tgt = self._probe_target(call, s)
+        if tgt is None:
+            return None
+        fi, cbind = tgt
+        own = [n for n in ast.walk(fi.node) if isinstance(n, (ast.Yield, ast.YieldFrom))]
+        if not own or fi.node.decorator_list:
+            return None
+        try:
+            sub = Evaluator(self.repo, fi, cbind, self.max_paths, self.loop_unroll,
+                            self.inline, self._depth + 1).run()
+        except AnalysisError:
+            return None
+        rets = [q for q in sub if q.status == 'return']
+        if not rets or len(rets) > 8 or \
+                any(sum(1 for e in q.events if e.kind == 'yield') > 2 for q in rets):
+            return None
+        uid = (getattr(st, 'lineno', 0), getattr(st, 'col_offset', 0))
+        it = self._probed_term          # the iteration domain is the generator call
+        outs: List[State] = []
+        for q in rets:
+            cur = [s.fork()]
+            seg: List[Event] = []
+            done: List[State] = []
+            n_y = 0
+            for e in q.events:
+                if e.kind != 'yield':
+                    seg.append(e)
+                    continue
+                nxt: List[State] = []
+                for si in cur:
+                    self._splice(si, q, call, seg)
+                    self.assign(st.target, e.data[0], si, st)
+                    old_ctx = si.ctx
+                    si.ctx = si.ctx + (('loop', uid + (('gen', n_y),), it, call),)
+                    for b in self.block(st.body, [si]):
+                        b.ctx = old_ctx
+                        if b.status == 'break':
+                            b.status = 'normal'
+                            done.append(b)
+                        elif b.status in ('return', 'raise'):
+                            outs.append(b)
+                        else:
+                            b.status = 'normal'
+                            nxt.append(b)
+                cur, seg = nxt, []
+                n_y += 1
+                if len(cur) > 64:
+                    raise AnalysisError(f'{self.fn.qualname}: too many paths in a generator loop')
+            for si in cur:
+                self._splice(si, q, call, seg)
+                si.events.append(Event('loop0' if n_y == 0 else 'loopend', (uid, it), st, si.ctx))
+                outs += self.block(st.orelse, [si])
+            outs += done
+        return outs
+
     def st_For(self, st: ast.For, s: State):
+        if self.inline is not None and isinstance(st.iter, ast.Call):
+            g = self._generator_loop(st, s)
+            if g is not None:
+                return g
         it = self.expr(st.iter, s)
+        if it[0] == 'global' and isinstance(it[1], str):
+            tab = self._global_tuple(it[1])
+            if tab is not None and tab[0] == 'tuple':
+                it = tab
+        if it[0] == 'call' and it[1] == ('global', 'builtins.range') and len(it[2]) == 1 and \
+                not it[3] and it[2][0][0] == 'const' and type(it[2][0][1]) is int and \
+                it[2][0][1] <= 4:
+            # range(n) with a known small n (typically a helper's parameter bound at the call)
+            it = ('tuple', tuple(('const', k) for k in range(it[2][0][1])))
+            if not it[1]:
+                s.events.append(Event('loopend', ((st.lineno, st.col_offset), it), st, s.ctx))
+                return self.block(st.orelse, [s])
         if it[0] in ('tuple', 'list') and 1 <= len(it[1]) <= 4 and \
                 (all(_is_literal(x) for x in it[1]) or it[0] == 'tuple' or
                  isinstance(st.iter, (ast.Tuple, ast.List))):
@@ -523,17 +636,7 @@ class Evaluator:
 
     def _context_manager(self, st: ast.With, s: State):
         call = st.items[0].context_expr
-        probe = s.fork()
-        prev_inline, self.inline = self.inline, None        # evaluate the call expression plainly
-        try:
-            f = self.expr(call.func, probe)
-            args = tuple(self.expr(a, probe) for a in call.args
-                         if not isinstance(a, ast.Starred))
-            kws = tuple((k.arg if k.arg is not None else '**', self.expr(k.value, probe))
-                        for k in call.keywords)
-        finally:
-            self.inline = prev_inline
-        tgt = self._inline_target(f, args, kws)
+        tgt = self._probe_target(call, s)
         if tgt is None:
             return None
         fi, cbind = tgt
@@ -890,7 +993,13 @@ class Evaluator:
                                   ev.node, ev.ctx) for ev in q.events]
                 self._splice(s, q, e)
                 return _rebuild_free(q.retval, free)
-        tgt = self._inline_target(f, args, kws)
+        # a list display written as an argument is bound as an immutable sequence: a loop over
+        # the parameter is then a loop over the display (unrolled exactly)
+        args_b = args
+        if len(e.args) == len(args):
+            args_b = tuple(('tuple', a[1]) if isinstance(n, ast.List) and a[0] == 'list' else a
+                           for n, a in zip(e.args, args))
+        tgt = self._inline_target(f, args_b, kws)
         if tgt is not None:
             if id(e) in self._forced:
                 q = self._forced[id(e)]
